@@ -137,6 +137,13 @@ fn answer(a: &[&str]) -> String {
             let e: DataElement<InMemDicomObject> = DataElement::new(Tag(0x0009, 0x1001), vr, value);
             serde_json::to_string(&dicom_json::DicomJson::from(&e)).unwrap_or_else(|_| "ERR".into())
         }
+        "json_elem_empty" => {
+            use dicom_core::{DataElement, VR};
+            use dicom_object::InMemDicomObject;
+            let vr: VR = a[1].parse().unwrap();
+            let e: DataElement<InMemDicomObject> = DataElement::new(Tag(0x0009, 0x1001), vr, PrimitiveValue::Empty);
+            serde_json::to_string(&dicom_json::DicomJson::from(&e)).unwrap_or_else(|_| "ERR".into())
+        }
         // ts_dump -> one line per registered transfer syntax
         "ts_dump" => {
             use dicom_encoding::transfer_syntax::TransferSyntaxIndex;
